@@ -19,7 +19,7 @@ AttrKinds == {"obj", "missing", "null", "str", "arr"}
 \* C07 / C03: zone slots holding the wrong kind of value, and statement / document / stage arrays whose items are bare scalars,
 \* null or arrays instead of documents (not derivable from the grammar: label "any")
 DamagedSlots == {"updatesItems", "deletesItems", "documentsItems", "pipelineItems", "uPipeItems", "filterStr", "filterArr", "sortNum",
-                 "pipelineObj", "pipelineStr", "updatesObj", "documentsStr", "qNull", "uStr", "explainWrap"}
+                 "pipelineObj", "pipelineStr", "updatesObj", "documentsStr", "qNull", "uStr", "explainWrap", "bulkWrite"}
 RECURSIVE AnyLab(_)
 AnyLab(v) == CASE v.t = "obj" -> Obj([i \in 1..Len(v.kv) |-> <<v.kv[i][1], AnyLab(v.kv[i][2])>>])
                [] v.t = "arr" -> Arr([i \in 1..Len(v.it) |-> AnyLab(v.it[i])])
@@ -27,7 +27,7 @@ AnyLab(v) == CASE v.t = "obj" -> Obj([i \in 1..Len(v.kv) |-> <<v.kv[i][1], AnyLa
 Items(t) == Arr(<<Leaf("plain", "any"), Leaf("num", "any"), Null("any"), Arr(<<Leaf("num", "any"), Leaf("plain", "any")>>), Leaf("bool", "any"), t>>)
 
 Slots == {"filter", "query", "sort", "q", "u", "update", "updatePipe", "updates", "deletes", "documents", "documentsNoInsert",
-          "pipeline", "uPipe", "other", "arrayFilters", "writeStmt"} \cup (IF EWDamaged THEN DamagedSlots ELSE {})
+          "pipeline", "uPipe", "other", "arrayFilters", "writeStmt", "adminCmd"} \cup (IF EWDamaged THEN DamagedSlots ELSE {})
 
 \* shallow zone content: a field with a literal, an operator over a literal, an array of literals, a nested document
 Contents == {"field", "op", "arr", "nested", "ref", "numbool"}
@@ -57,6 +57,8 @@ CmdFor(s, t) ==
     [] s = "documentsNoInsert" -> Cmd("find", "documents", Arr(<<t>>))
     [] s = "pipeline"  -> Cmd("aggregate", "pipeline", Arr(<<MatchStage(t), SetStage(t)>>))
     [] s = "other"     -> Cmd("find", "projection", t)
+    \* a command whose first field holds an argument that is no collection (getLog: "global", setFeatureCompatibilityVersion: "7.0" ...)
+    [] s = "adminCmd"  -> Obj(<< <<"getLog", Str("envstr", "env")>>, <<"projection", t>>, <<"$db", NsName>> >>)
     \* the update specification spelled at command level: findAndModify with arrayFilters, and the WRITE log line of one
     \* update statement ({q, u, c, arrayFilters, multi, upsert} - no verb key at all)
     [] s = "arrayFilters" -> Obj(<< <<"findAndModify", NsName>>, <<"query", t>>, <<"update", Obj(<< <<"$set", t>> >>)>>,
@@ -77,6 +79,13 @@ CmdFor(s, t) ==
     [] s = "documentsStr"   -> Cmd("insert", "documents", Leaf("plain", "any"))
     [] s = "qNull"          -> Cmd("delete", "q", Null("any"))
     [] s = "uStr"           -> Cmd("update", "u", Leaf("plain", "any"))
+    \* the bulkWrite command of newer servers (ops refer to nsInfo entries by position): not claimed by the tool - but whatever it does with
+    \* it, odd positions (negative, fractional, a string) must not hurt
+    [] s = "bulkWrite"      -> Obj(<< <<"bulkWrite", Num("env")>>,
+                                      <<"ops", Arr(<< Obj(<< <<"insert", Num("any")>>, <<"document", t>> >>),
+                                                      Obj(<< <<"update", Num("any")>>, <<"filter", t>>, <<"updateMods", Obj(<< <<"$set", t>> >>)>> >>),
+                                                      Obj(<< <<"delete", Leaf("plain", "any")>>, <<"filter", t>> >>) >>)>>,
+                                      <<"nsInfo", Arr(<< Obj(<< <<"ns", Str("envstr", "env")>> >>) >>)>>, <<"$db", NsName>> >>)
     \* explain wraps the whole command; the tool does not claim it - whatever it does, nothing around the zones may change
     [] s = "explainWrap"    -> Obj(<< <<"explain", Obj(<< <<"find", Str("plain", "any")>>, <<"filter", t>>, <<"limit", Num("any")>> >>)>>,
                                       <<"verbosity", Lit("queryPlanner")>>, <<"maxTimeMS", Num("env")>>, <<"$db", NsName>> >>)
